@@ -14,7 +14,7 @@ open Gallia Gallia.Proto Gallia.Penlog
     unesc <hex>                             -> text of a JSON string literal (or `bad`)
     prio <hex>                              -> priority of a raw line
     lvl <n> / tolvl <p>                     -> level mapping
-    logrec <name> <msg> <levelno> <levelname> <Y> <Mo> <D> <H> <Mi> <S> <us> <off|n> <path> <lineno> <func> <tags> <exc|n> <host>
+    logrec <name> <msg> <levelno> <levelname> <Y> <Mo> <D> <H> <Mi> <S> <us> <off|n> <path> <lineno> <func> <tags> <exc|n> <stack|n> <host>
                                             -> like `rec`, for the record as `QueueHandler.prepare` + `_JSONFormatter.format` make it
     jsonfmt <same arguments>                -> hex of the JSON object `_JSONFormatter.format` returns (no queue), state unchanged
     show <i>                                -> stored record i as `parse_json` reads it back (canonical form + printed text)
@@ -133,13 +133,14 @@ def parseDTToks (y mo d h mi sc us off : String) : Option DT :=
 
 def parseLogRec (a : List String) : Option (LogRec × Str) :=
   match a with
-  | [name, msg, lno, lname, y, mo, d, h, mi, sc, us, off, path, lineno, func, tags, exc, host] =>
+  | [name, msg, lno, lname, y, mo, d, h, mi, sc, us, off, path, lineno, func, tags, exc, stack, host] =>
     match parseStrTok name, parseStrTok msg, lno.toNat?, parseStrTok lname, parseDTToks y mo d h mi sc us off,
-          parseStrTok path, lineno.toNat?, parseStrTok func, parseTagsTok tags, parseOptStrTok exc, parseStrTok host with
+          parseStrTok path, lineno.toNat?, parseStrTok func, parseTagsTok tags, parseOptStrTok exc, parseOptStrTok stack,
+          parseStrTok host with
     | some name, some msg, some levelno, some levelname, some created, some pathname, some lineno, some funcName,
-      some tags, some excText, some host =>
-      some ({ name, msg, levelno, levelname, created, pathname, lineno, funcName, tags, excText }, host)
-    | _, _, _, _, _, _, _, _, _, _, _ => none
+      some tags, some excText, some stackInfo, some host =>
+      some ({ name, msg, levelno, levelname, created, pathname, lineno, funcName, tags, excText, stackInfo }, host)
+    | _, _, _, _, _, _, _, _, _, _, _, _ => none
   | _ => none
 
 def parseMembers : Nat → List String → Option (JObj × List String)
